@@ -60,8 +60,9 @@ def expected(op, a, b):
                 return ('err', 6)
             return ('ok', q)
         if not (-32768 <= q <= 32767):
-            # statement does not pin MOD for the one pair whose quotient overflows
-            return ('either', [('ok', 0), ('err', 6)])
+            # the statement's letter: "both raise ... Overflow when the quotient leaves -32768..32767"
+            # (one pair, -32768 MOD -1; the tree returns the remainder 0: open known finding, see MOD_KEY)
+            return ('err', 6)
         return ('ok', rnum.trunc_mod(a, b))
     ua, ub = a & 0xffff, b & 0xffff
     if op == 'and':
@@ -75,6 +76,18 @@ def expected(op, a, b):
     elif op == 'imp':
         r = (~ua) | ub
     return ('ok', rnum.s16(r))
+
+
+MOD_KEY = 'mod:quotient-leaves-range:remainder-returned-instead-of-overflow'
+
+
+def _mod_finding(res, op, a, b, got, exp):
+    """-32768 MOD -1 giving 0 where the statement says Overflow: reported under its own mechanism key."""
+    if op == 'mod' and exp == ('err', 6) and got == ('ok', 0):
+        res.violation(MOD_KEY, '%d MOD %d returns 0; the statement says Overflow when the quotient leaves -32768..32767'
+                      % (a, b), [op, a, b])
+        return True
+    return False
 
 
 def plan(tier, seed):
@@ -130,6 +143,8 @@ def _check_api(res, numapi, fn, op, a, b):
         res.count('div_overflow_seen')
     elif got == ('err', 11):
         res.count('div_zero_seen')
+    if not ok and _mod_finding(res, op, a, b, got, exp):
+        return
     if not ok:
         kind = 'value' if (got[0] == 'ok' and exp[0] == 'ok') else 'error-class'
         res.violation('api:%s:%s' % (op, kind), '%d %s %d: got %r expected %r' % (a, op, b, got, exp), [op, a, b])
@@ -306,6 +321,8 @@ def _basic_ops(spec, rng, res):
             if got == ('err', 11):
                 res.count('div_zero_seen')
             if ok:
+                continue
+            if _mod_finding(res, op, a, b, got, exp):
                 continue
             if dev is not None and got == dev:
                 res.violation('bitwise-operand-32768..65535-raises-overflow',
